@@ -22,9 +22,9 @@ using namespace dsplib;
 
 namespace {
 
-enum Kind { K_FFT = 0, K_IFFT = 1, K_PLAN_C = 2, K_RFFT = 3, K_IRFFT = 4, K_PLAN_R = 5, K_USE_C = 6, K_USE_R = 7, K_FFT_REAL = 8 };
+enum Kind { K_FFT = 0, K_IFFT = 1, K_PLAN_C = 2, K_RFFT = 3, K_IRFFT = 4, K_PLAN_R = 5, K_USE_C = 6, K_USE_R = 7, K_FFT_REAL = 8, K_PLAN_IC = 9, K_PLAN_IR = 10, K_USE_IC = 11, K_USE_IR = 12, K_NKINDS = 13 };
 const char* kind_name(int k) {
-    static const char* n[] = {"fft", "ifft", "FftPlan", "rfft", "irfft", "FftPlanR", "use-stored-FftPlan", "use-stored-FftPlanR", "fft(real)"};
+    static const char* n[] = {"fft", "ifft", "FftPlan", "rfft", "irfft", "FftPlanR", "use-stored-FftPlan", "use-stored-FftPlanR", "fft(real)", "IfftPlan", "IfftPlanR", "use-stored-IfftPlan", "use-stored-IfftPlanR"};
     return n[k];
 }
 inline int code(int kind, int len) { return kind * 100000 + len; }
@@ -59,6 +59,8 @@ struct Stored
 {
     std::vector<std::pair<int, FftPlan>> c;
     std::vector<std::pair<int, FftPlanR>> r;
+    std::vector<std::pair<int, IfftPlan>> ic;
+    std::vector<std::pair<int, IfftPlanR>> ir;
 };
 
 // performs one request; returns the bit pattern of its result
@@ -73,6 +75,10 @@ std::vector<uint64_t> perform(int kind, int n, Stored& st, int arg) {
     case K_PLAN_R: { FftPlanR p(n); auto b = bits(p(re_input(n))); st.r.emplace_back(n, p); return b; }
     case K_USE_C: { if (st.c.empty()) return {}; auto& e = st.c[size_t(arg) % st.c.size()]; return bits(e.second(cx_input(e.first))); }
     case K_USE_R: { if (st.r.empty()) return {}; auto& e = st.r[size_t(arg) % st.r.size()]; return bits(e.second(re_input(e.first))); }
+    case K_PLAN_IC: { IfftPlan p(n); auto b = bits(p(cx_input(n))); st.ic.emplace_back(n, p); return b; }
+    case K_PLAN_IR: { IfftPlanR p(n); auto b = bits(p(cx_input(n / 2 + 1))); st.ir.emplace_back(n, p); return b; }
+    case K_USE_IC: { if (st.ic.empty()) return {}; auto& e = st.ic[size_t(arg) % st.ic.size()]; return bits(e.second(cx_input(e.first))); }
+    case K_USE_IR: { if (st.ir.empty()) return {}; auto& e = st.ir[size_t(arg) % st.ir.size()]; return bits(e.second(cx_input(e.first / 2 + 1))); }
     }
     return {};
 }
@@ -83,7 +89,7 @@ std::map<int, std::vector<uint64_t>>& table() {
     return t;
 }
 const std::vector<uint64_t>& fresh_result(int kind, int n) {
-    int ek = kind == K_USE_C ? K_PLAN_C : kind == K_USE_R ? K_PLAN_R : kind;
+    int ek = kind == K_USE_C ? K_PLAN_C : kind == K_USE_R ? K_PLAN_R : kind == K_USE_IC ? K_PLAN_IC : kind == K_USE_IR ? K_PLAN_IR : kind;
     int key = code(ek, n);
     auto it = table().find(key);
     if (it != table().end()) return it->second;
@@ -149,6 +155,9 @@ HistResult run_history(const std::vector<int>& h) {
             int eff_n = n, eff_kind = kind;
             if (kind == K_USE_C) { if (st.c.empty()) continue; eff_n = st.c[size_t(n) % st.c.size()].first; }
             if (kind == K_USE_R) { if (st.r.empty()) continue; eff_n = st.r[size_t(n) % st.r.size()].first; }
+            if (kind == K_USE_IC) { if (st.ic.empty()) continue; eff_n = st.ic[size_t(n) % st.ic.size()].first; }
+            if (kind == K_USE_IR) { if (st.ir.empty()) continue; eff_n = st.ir[size_t(n) % st.ir.size()].first; }
+            const bool is_use = (kind == K_USE_C || kind == K_USE_R || kind == K_USE_IC || kind == K_USE_IR);
             std::vector<uint64_t> got;
             try { got = perform(kind, n, st, n); } catch (const std::exception& e) { R.failed = true; R.sig = "cache:exception"; R.msg = fmt("step %zu %s(%d) threw %s", step, kind_name(kind), n, e.what()); return; }
             const auto Ac = verif::fft_cache_keys(), Ar = verif::rfft_cache_keys();
@@ -156,18 +165,19 @@ HistResult run_history(const std::vector<int>& h) {
             const auto& ref = fresh_result(eff_kind, eff_n);
             if (got != ref) {
                 R.failed = true;
-                R.sig = (kind == K_USE_C || kind == K_USE_R) ? "cache:stored-plan-result" : "cache:result-depends-on-history";
+                R.sig = is_use ? "cache:stored-plan-result" : "cache:result-depends-on-history";
                 R.msg = fmt("step %zu %s(%d): result differs from the same call in a fresh thread (complex cache before %s, real cache before %s)", step, kind_name(kind), eff_n, show(Bc).c_str(), show(Br).c_str());
                 return;
             }
             // (2) LRU model
             std::string e1, e2;
-            if (kind == K_USE_C || kind == K_USE_R) {
+            if (is_use) {
                 if (Ac != Bc || Ar != Br) e1 = "using an existing plan object changed the cache: " + show(Bc) + " -> " + show(Ac);
-                bool gone = (kind == K_USE_C) ? (!is_small(eff_n) && std::find(Bc.begin(), Bc.end(), eff_n) == Bc.end()) : (!is_small(eff_n) && std::find(Br.begin(), Br.end(), eff_n) == Br.end());
+                const int ckey = (kind == K_USE_IR) ? eff_n / 2 : eff_n;
+                bool gone = (kind == K_USE_R) ? (!is_small(eff_n) && std::find(Br.begin(), Br.end(), eff_n) == Br.end()) : (!is_small(ckey) && std::find(Bc.begin(), Bc.end(), ckey) == Bc.end());
                 if (gone) R.stored_after_evict++;
-            } else if (kind == K_FFT || kind == K_IFFT || kind == K_PLAN_C || kind == K_IRFFT) {
-                const int cn = (kind == K_IRFFT) ? n / 2 : n;
+            } else if (kind == K_FFT || kind == K_IFFT || kind == K_PLAN_C || kind == K_IRFFT || kind == K_PLAN_IC || kind == K_PLAN_IR) {
+                const int cn = (kind == K_IRFFT || kind == K_PLAN_IR) ? n / 2 : n;
                 if (Ar != Br) e2 = "a complex-plan request changed the real cache: " + show(Br) + " -> " + show(Ar);
                 if (is_small(cn)) { if (Ac != Bc) e1 = fmt("small length %d must not be cached: ", cn) + show(Bc) + " -> " + show(Ac); }
                 else {
@@ -310,10 +320,10 @@ static void lng_check(const Json& c, Out& o) {
     std::vector<int> h;
     const int npool = c.geti("npool");
     for (int i = 0; i < len; ++i) {
-        int kind = r.range(0, 8);
+        int kind = r.range(0, int(K_NKINDS) - 1);
         int n = pool[r.range(0, npool - 1)];
-        if (kind == K_USE_C || kind == K_USE_R) n = r.range(0, 63);
-        if (kind == K_IRFFT) n = 2 * n;
+        if (kind == K_USE_C || kind == K_USE_R || kind == K_USE_IC || kind == K_USE_IR) n = r.range(0, 63);
+        if (kind == K_IRFFT || kind == K_PLAN_IR) n = 2 * n;
         h.push_back(code(kind, n));
     }
     HistResult res = run_history(h);
